@@ -13,3 +13,33 @@ package cmd
 //@   ensures [C11 unquoted_text_is_kept] !(len(s) > 1 && s[0] == 34 && s[len(s) - 1] == 34) ==> r == s
 //@ lemma quoting_round_trip(p string) props C11 C20:
 //@      substr("\"" + p + "\"", 1, len("\"" + p + "\"") - 2) == p
+
+// retry (C10, C11): the run being retried is looked up by the given request id in the history of this DAG file; the
+// DAG is loaded again with exactly the parameter text recorded for that run; the agent gets a newly generated request
+// id and the recorded status as its retry target.
+//@ fn newClient(cfg, ds, lg) (c)
+//@   props C10 C11
+//@   modifies heap(alloc)
+//@   nonnilresult
+//@ fn newDataStores(cfg) (ds)
+//@   props C10 C11
+//@   trusted
+//@   modifies heap(alloc), ghost fs.*, ghost eff.fs, ghost obs.stat*, ghost obs.mkdir*
+//@   nonnilresult
+// listenSignals only starts the goroutine that forwards SIGINT/SIGTERM (or the end of the context) to the agent.
+//@ fn listenSignals(ctx, listener)
+//@   props C05 C10 C11
+//@   trusted
+//@   noeffect
+//@ fn generateRequestID() (id, err)
+//@   props C10 C11
+//@   modifies heap(alloc)
+//@ fn retryCmd$1(cmd, args)
+//@   props C10 C11
+//@   modifies *
+//@   expect calls dag.Load >= 1
+//@   expect calls agent.New >= 1
+//@   expect calls (persistence.HistoryStore).FindByRequestID >= 1
+//@   assert before (persistence.HistoryStore).FindByRequestID [C10 retried_run_is_the_one_asked_for] arg1 == absoluteFilePath && arg2 == requestID
+//@   assert before dag.Load [C10 retry_uses_the_recorded_parameters] arg1 == absoluteFilePath && arg2 == status.Status.Params
+//@   assert before agent.New [C10 retry_is_a_new_run_of_the_recorded_status] arg0 == newRequestID && arg1 == workflow && arg7 != nil && arg7.RetryTarget == status.Status
